@@ -317,10 +317,37 @@ REAL_FILES_THOROUGH = ['musicxml/parser/test_bach_partita_3_reduced_created.xml'
                        'musicxml/parser/test_bach_partita_3.xml']
 
 
+def make_body(ctx, acc):
+    s = schema()
+    outside = sorted(n for n, t in s.element_type.items() if t not in c14.EXCLUDED_TYPES)
+
+    def body(data):
+        el = data.draw(st.sampled_from(c08.ROOTS)) if data.draw(st.integers(0, 2)) > 0 \
+            else data.draw(st.sampled_from(outside))
+        plan = draw_doc(data, el, data.draw(st.integers(1, 3)), set(), [40], False)
+        if plan is None:
+            return
+        root = to_et(plan)
+        label = mutate(data, root)
+        if data.draw(st.integers(0, 3)) == 0:
+            label += '+' + mutate(data, root)
+        xml_text = ET.tostring(root, encoding='unicode')
+        f, status = check_no_loss(xml_text, label)
+        acc.case({'mode': 'mutated', 'xml': xml_text, 'mutation': label}, status.startswith('accepted'), len(xml_text))
+        acc.count('mutant-' + status)
+        acc.count('mutation-' + label.split('+')[0])
+        if f:
+            acc.fail(f)
+    return body
+
+
 def shards(ctx):
     jobs = [{'mode': 'valid', 'index': i} for i in range(8)]
     jobs += [{'mode': 'mutated', 'index': i} for i in range(7)]
     jobs.append({'mode': 'files'})
+    if not ctx.quick:
+        for i in range(4):
+            jobs.append({'mode': 'atheris', 'index': i})
     return jobs
 
 
@@ -328,6 +355,10 @@ def run_shard(ctx, shard, acc):
     s = schema()
     names = sorted(s.element_type)
     outside = sorted(n for n, t in s.element_type.items() if t not in c14.EXCLUDED_TYPES)
+    if shard['mode'] == 'atheris':
+        from ..fuzz import run_atheris
+        run_atheris(ctx, acc, 'C09', shard['index'], seconds=int(120 * ctx.scale) or 10)
+        return
     if shard['mode'] == 'files':
         files = REAL_FILES_QUICK + ([] if ctx.quick else REAL_FILES_THOROUGH)
         root = os.path.dirname(driver.PKG_DIR.rstrip(os.sep))
@@ -363,21 +394,5 @@ def run_shard(ctx, shard, acc):
         hyp_search(acc, body, mix(ctx.seed, 'C09v', shard['index']), ctx.budget(900, 6000))
         return
 
-    def body(data):
-        el = data.draw(st.sampled_from(c08.ROOTS)) if data.draw(st.integers(0, 2)) > 0 \
-            else data.draw(st.sampled_from(outside))
-        plan = draw_doc(data, el, data.draw(st.integers(1, 3)), set(), [40], False)
-        if plan is None:
-            return
-        root = to_et(plan)
-        label = mutate(data, root)
-        if data.draw(st.integers(0, 3)) == 0:
-            label += '+' + mutate(data, root)
-        xml_text = ET.tostring(root, encoding='unicode')
-        f, status = check_no_loss(xml_text, label)
-        acc.case({'mode': 'mutated', 'xml': xml_text, 'mutation': label}, status.startswith('accepted'), len(xml_text))
-        acc.count('mutant-' + status)
-        acc.count('mutation-' + label.split('+')[0])
-        if f:
-            acc.fail(f)
+    body = make_body(ctx, acc)
     hyp_search(acc, body, mix(ctx.seed, 'C09m', shard['index']), ctx.budget(1500, 14000))
